@@ -78,6 +78,7 @@ func analyse(goarch string, overlay map[string][]byte) (*core.Collector, error) 
 	rules.Degree(w, ls, c)
 	rules.RoEffect(w, ls, c)
 	rules.WithCB(w, ls, c)
+	rules.SharedScratch(w, ls, c)
 	rules.RunAll(w, c)
 	// a rule family that lost its instances must fail, not pass vacuously
 	cnt := map[string]int{}
